@@ -96,18 +96,18 @@ def confirm(name, suite):
         res["demo_patched_tail"] = out[-1200:]
         os.remove(os.path.join(wt, path))
         if suite:
-            rc, out = sh(["go", "test", "-vet=off", "-count=1", "-timeout", "25m", "./..."], wt)
-            lines = out.splitlines()
-            bad = [l for l in lines if l.lstrip().startswith("--- FAIL") or re.match(r"FAIL\s+\S+", l)]
-            real = [l for l in lines if l.lstrip().startswith("--- FAIL") and "TestPathological" not in l]
-            patho = any("TestPathological" in l for l in bad)
-            for l in lines:
-                if re.match(r"FAIL\s+\S+", l) and not (patho and l.split()[1].endswith("/parser")):
-                    real.append(l)
-            if rc != 0 and not bad:
-                real.append("exit %d: %s" % (rc, out[-300:]))
-            res["suite_ok"] = not real
-            res["suite_fail_lines"] = bad[:20]
+            js = os.path.join(base, "suite.json")
+            sh(["bash", "-c", "go test -json -vet=off -count=1 -timeout 25m ./... > %s 2>&1" % js], wt)
+            rc, out = sh(["python3", os.path.join(VERIF, "lib", "baseline_cmp.py"), js], wt)
+            if rc != 0:
+                # TestPathological is timing based: re-run what did not pass once, alone
+                miss = re.findall(r"NOT PASS: (\S+)::(\S+)", out)
+                if miss and all(t.startswith("TestPathological") for _, t in miss):
+                    rc2, out2 = sh(["go", "test", "-vet=off", "-count=1", "-run", "TestPathological", "./parser/"], wt)
+                    if rc2 == 0:
+                        rc, out = 0, out + "\n(TestPathological passed when re-run alone)"
+            res["suite_ok"] = rc == 0
+            res["suite_summary"] = out[-1500:]
     finally:
         subprocess.run(["git", "-C", REPO, "worktree", "remove", "--force", wt])
         shutil.rmtree(base, ignore_errors=True)
